@@ -44,7 +44,9 @@ pub fn require_root(session: &mut Session, key: TaskKey) -> Out {
     1 => session.require(&T::<1>(key.id)),
     2 => session.require(&Box::new(T::<2>(key.id))),
     3 => session.require(&Rc::new(T::<3>(key.id))),
-    _ => session.require(&Arc::new(T::<4>(key.id))),
+    4 => session.require(&Arc::new(T::<4>(key.id))),
+    5 => session.require(&Box::new(T::<0>(key.id))),
+    _ => session.require(&Rc::new(T::<0>(key.id))),
   }
 }
 
@@ -54,7 +56,9 @@ fn require_task<C: Context>(c: &mut C, key: TaskKey, chk: OChk) -> Out {
     1 => c.require(&T::<1>(key.id), chk),
     2 => c.require(&Box::new(T::<2>(key.id)), chk),
     3 => c.require(&Rc::new(T::<3>(key.id)), chk),
-    _ => c.require(&Arc::new(T::<4>(key.id)), chk),
+    4 => c.require(&Arc::new(T::<4>(key.id)), chk),
+    5 => c.require(&Box::new(T::<0>(key.id)), chk),
+    _ => c.require(&Rc::new(T::<0>(key.id)), chk),
   }
 }
 
@@ -164,7 +168,10 @@ pub fn execute<C: Context>(fam: u8, id: u32, c: &mut C) -> Out {
   let bottom_up = std::any::type_name::<C>().contains("BottomUp");
   let (prog, t, n, depth, execs) = with_sim(|s| {
     let prog = s.prog.clone().expect("no program installed");
-    let t = prog.task_index(TaskKey { fam, id }).expect("execution of a task that is not in the program");
+    // Wrapper families around the inner type of family 0 run the same `execute`; the tracker announced which key runs.
+    let announced = s.next_exec_key.take().filter(|k| k.id == id && (k.fam == fam || (fam == 0 && (k.fam == 5 || k.fam == 6))));
+    let key = announced.unwrap_or(TaskKey { fam, id });
+    let t = prog.task_index(key).or_else(|| prog.task_index(TaskKey { fam, id })).expect("execution of a task that is not in the program");
     s.exec_count[t] += 1;
     let n = s.exec_count[t];
     s.exec_stack.push((t, n));
